@@ -160,6 +160,8 @@ def config_features(case, infos):
 
 
 def family_of(api):
+    if api.startswith("torcfg_"):
+        return "torobj"
     return "torconfig" if api.startswith("cfg") else "direct"
 
 
@@ -206,6 +208,34 @@ def _call(fn, *a, **kw):
         return ("raised", e)
 
 
+def _run_prelude(pre, cfg, aud, link, reactor):
+    """make the TorConfig object's view of SocksPort differ from what Tor has, without
+    changing Tor: a save() Tor rejects (answered, or still in flight when the API is
+    called) or an in-place edit that is never saved"""
+    kind = pre.get("kind", "none")
+    if kind == "none":
+        return "in-sync"
+    value, edit = pre["value"], pre["edit"]
+    try:
+        if edit == "replace":
+            cfg.SocksPort = [value]
+        elif edit == "insert0":
+            cfg.SocksPort.insert(0, value)
+        elif edit == "set0" and len(cfg.SocksPort):
+            cfg.SocksPort[0] = value
+        else:
+            cfg.SocksPort.append(value)
+    except Exception as e:     # noqa
+        return "edit-raised:%r" % (e,)
+    if kind == "unsaved-edit":
+        return "edited"
+    o = aud.watch(cfg.save(), "prelude-save")
+    if kind == "rejected-save":
+        _settle(link, reactor)
+        return "save:%s" % (o.describe()[0] if o.fired else "pending",)
+    return "save-in-flight"
+
+
 def run_steps(case):
     """execute one case; -> list of per-step observations"""
     import txtorcon
@@ -229,8 +259,24 @@ def run_steps(case):
         else:
             cfg = o.value
     torobj = None
-    if api in ("tor_default", "stream_via", "dns_resolve", "web_agent"):
+    if api in ("tor_default", "stream_via", "dns_resolve", "dns_resolve_ptr", "web_agent"):
         torobj = tctl.Tor(reactor, proto)
+    prelude_note = None
+    if api.startswith("torcfg_"):
+        # a Tor object that owns a loaded TorConfig (what connect()/launch()/get_config() give)
+        if case.get("cfg_via") == "get_config":
+            torobj = tctl.Tor(reactor, proto)
+            o = aud.watch(torobj.get_config(), "get_config")
+        else:
+            o = aud.watch(txtorcon.TorConfig.from_protocol(proto), "boot")
+        _settle(link, reactor)
+        if not (o.fired and o.ok):
+            boot_problem = o.describe()
+        else:
+            cfg = o.value
+            if torobj is None:
+                torobj = tctl.Tor(reactor, proto, _tor_config=cfg)
+            prelude_note = _run_prelude(case.get("prelude") or {}, cfg, aud, link, reactor)
     obs = []
     for req in case["steps"]:
         step = {"req": req, "E": tor.conf.socks_entries(), "others": tor.conf.snapshot_others(),
@@ -242,7 +288,7 @@ def run_steps(case):
                     if isinstance(view, list) else repr(view)
             except Exception as e:     # noqa
                 step["cfg_view"] = "unreadable: %r" % (e,)
-        n0 = len(tor.lines)
+        wmark = len(link.transport.writes)        # what the API writes starts here
         nrep0 = len(tor.replies)
         a0 = len(reactor.attempts)
         l0 = len(reactor.listening)
@@ -262,19 +308,22 @@ def run_steps(case):
                     else _call(cfg.socks_endpoint, reactor)
             elif api == "cfg_sync_int":
                 res = _call(cfg.socks_endpoint, reactor, int(req))
-            elif api == "tor_default":
+            elif api in ("tor_default", "torcfg_default"):
                 res = _call(torobj._default_socks_endpoint)
             elif api == "from_connection":
                 how = "connect"
                 res = _call(lambda: tep.TorClientEndpoint.from_connection(
                     reactor, proto, "example.com", 80).connect(_ProbeFactory()))
-            elif api == "stream_via":
+            elif api in ("stream_via", "torcfg_stream_via"):
                 how = "connect"
                 res = _call(lambda: torobj.stream_via("example.com", 443).connect(_ProbeFactory()))
-            elif api == "dns_resolve":
+            elif api in ("dns_resolve", "torcfg_dns_resolve"):
                 how = "connect"
                 res = _call(torobj.dns_resolve, "example.com")
-            elif api == "web_agent":
+            elif api in ("dns_resolve_ptr", "torcfg_dns_resolve_ptr"):
+                how = "connect"
+                res = _call(torobj.dns_resolve_ptr, "192.0.2.7")
+            elif api in ("web_agent", "torcfg_web_agent"):
                 how = "connect"
 
                 def go():
@@ -318,8 +367,10 @@ def run_steps(case):
                         outcome = ("pending",)
         step["outcome"] = outcome
         step["target"] = target
-        step["lines"] = tor.lines[n0:]
-        step["replies"] = [(l, c) for (l, c, _p) in tor.replies[nrep0:]]
+        written = b"".join(d for (_t, d) in link.transport.writes[wmark:]).decode("latin1")
+        step["lines"] = [l for l in written.split("\r\n") if l]
+        step["replies"] = [(l, c) for (l, c, _p) in tor.replies[nrep0:] if l in step["lines"]]
+        step["prelude_note"] = prelude_note
         step["E_after"] = tor.conf.socks_entries()
         step["others_after"] = tor.conf.snapshot_others()
         step["listened"] = [(p.number, p.interface, p.open) for p in reactor.listening[l0:]]
@@ -382,6 +433,9 @@ def judge_step(case, step, nstep, rec, V):
 
     def history_cause():
         """structural class of the input when nothing more specific explains a failure"""
+        if fam == "torobj":
+            k = (case.get("prelude") or {}).get("kind", "none")
+            return None if k == "none" else "config-view-diverged:" + k
         if fam == "torconfig" and view is not None and view != E:
             # the TorConfig object's own idea of SocksPort is not what Tor reported
             if isinstance(view, list) and "DEFAULT" in view:
@@ -437,9 +491,9 @@ def judge_step(case, step, nstep, rec, V):
             how = ["quoted" if i["first"].startswith('unix:"') else
                    ("opts" if i["flags"] and i["first"] in extra else
                     ("auto" if i["target"] == ("auto",) else "other")) for i in lost]
-            if lost and all(h == "auto" for h in how) and (fam == "direct" or len(infos) == 1):
+            if lost and all(h == "auto" for h in how) and (fam != "torconfig" or len(infos) == 1):
                 c = "existing-auto-entry"
-            elif fam == "torconfig" and history_cause():
+            elif fam in ("torconfig", "torobj") and history_cause():
                 c = history_cause()
             elif lost and all(h == "opts" for h in how):
                 c = "existing-entry-with-option-words"
@@ -516,7 +570,7 @@ def judge_step(case, step, nstep, rec, V):
             elif T[0] == "unix" and any(i["flags"] and i["target"][0] == "unix" and
                                         T[1] == i["line"][5:] for i in usable):
                 c = "unix-entry-with-option-words"
-            elif fam == "torconfig" and history_cause():
+            elif fam in ("torconfig", "torobj") and history_cause():
                 c = history_cause()
             elif rclass == "absent-substring" and not writes:
                 c = "request-substring-of-existing-entry"
@@ -662,7 +716,20 @@ def requests_for(cfg):
     return seen
 
 
-NONE_ONLY_APIS = ["tor_default", "from_connection", "stream_via", "dns_resolve", "web_agent"]
+NONE_ONLY_APIS = ["tor_default", "from_connection", "stream_via", "dns_resolve", "dns_resolve_ptr", "web_agent"]
+TORCFG_APIS = ["torcfg_stream_via", "torcfg_dns_resolve", "torcfg_default", "torcfg_dns_resolve_ptr", "torcfg_web_agent"]
+# (kind, edit, value): how the loaded TorConfig's view is made to differ from Tor (Tor itself unchanged)
+PRELUDES = [
+    ("none", "-", None),
+    ("rejected-save", "replace", "9999 BogusFlag"),
+    ("rejected-save", "insert0", "127.0.0.1:9998 NotAnOption"),
+    ("inflight-rejected", "replace", "9999 BogusFlag"),
+    ("inflight-rejected", "insert0", "unix:/tmp/never.sock BogusFlag"),
+    ("unsaved-edit", "replace", "9999"),
+    ("unsaved-edit", "insert0", "unix:/tmp/never.sock"),
+    ("unsaved-edit", "set0", "127.0.0.1:9998"),
+    ("unsaved-edit", "append", "9999"),
+]
 
 
 def cells_for(cfg, tier, idx):
@@ -681,6 +748,14 @@ def cells_for(cfg, tier, idx):
             out.append(dict(base, api="direct_pos", steps=[r], free=free))
     for api in NONE_ONLY_APIS:
         out.append(dict(base, api=api, steps=[None], free=free))
+    # Tor object owning a TorConfig whose view diverged from Tor before the first use
+    napis = 1 if tier == "quick" else 2
+    for j, (kind, edit, value) in enumerate(PRELUDES):
+        for a in range(napis):
+            api = TORCFG_APIS[(idx + j + 2 * a) % len(TORCFG_APIS)]
+            out.append(dict(base, api=api, steps=[None, None] if (idx + j) % 4 == 0 else [None], free=free,
+                            cfg_via="get_config" if (idx + j) % 2 else "ctor",
+                            prelude={"kind": kind, "edit": edit, "value": value}))
     # histories of two calls
     out.append(dict(base, api="tor_default", steps=[None, None], free=free))
     out.append(dict(base, api="direct", steps=[None, None], free=free))
@@ -697,13 +772,44 @@ def cells_for(cfg, tier, idx):
 # ---------------------------------------------------------------------------
 # workload B: fallback over the well-known ports
 
-OUTCOME_KINDS = ["success"] + sorted(sockstor.CONNECT_ERRORS) + sorted(sockstor.OTHER_FAILURES)
+# after a SUCCESSFUL TCP connect the SOCKS5 dialogue is played: complete success, an error reply
+# (RFC 1928 REP 1..8, what Tor answers), or Tor closing the connection before / after the
+# method-selection reply.  These are SOCKS-level failures, not connection errors.
+SOCKS_FAILURES = ["socks-reply-%d" % c for c in range(1, 9)] + ["socks-drop-before-method", "socks-drop-after-method"]
+OUTCOME_KINDS = ["success"] + sorted(sockstor.CONNECT_ERRORS) + sorted(sockstor.OTHER_FAILURES) + SOCKS_FAILURES
 
 
 def kind_class(k):
     if k == "success":
         return "S"
+    if k in SOCKS_FAILURES:
+        return "SX"
     return "CE" if k in sockstor.CONNECT_ERRORS else "X"
+
+
+def play_socks(kind, proto, tr, rec):
+    """the SOCKS server side of one connection that was established"""
+    from twisted.internet import error as terr
+    from twisted.python import failure as tfail
+    try:
+        if not tr.value():
+            rec.count("socks_client_wrote_nothing")
+        if kind == "socks-drop-before-method":
+            proto.connectionLost(tfail.Failure(terr.ConnectionDone()))
+            return
+        proto.dataReceived(b"\x05\x00")                    # method: no authentication
+        if kind == "socks-drop-after-method":
+            proto.connectionLost(tfail.Failure(terr.ConnectionLost()))
+            return
+        if kind == "success":
+            proto.dataReceived(b"\x05\x00\x00\x01\x00\x00\x00\x00\x00\x00")
+            return
+        code = int(kind.rsplit("-", 1)[1])
+        proto.dataReceived(bytes([5, code, 0, 1, 0, 0, 0, 0, 0, 0]))
+        # Tor closes after an error reply (and the client asked for the close itself)
+        proto.connectionLost(tfail.Failure(terr.ConnectionDone()))
+    except Exception:      # noqa
+        rec.count("socks_dialogue_exception")
 
 
 def make_exc(kind, tag):
@@ -749,17 +855,11 @@ def run_case_B(case, rec):
     while reactor.open and k < 8:
         kind = seq[k] if k < len(seq) else "refused"
         att = reactor.attempts[len(given)]
-        if kind == "success":
+        if kind == "success" or kind in SOCKS_FAILURES:
             proto, tr = reactor.succeed()
             given.append((att, kind, None))
-            # minimal SOCKS5 dialogue so that connect() can complete
             if proto is not None:
-                try:
-                    if tr.value():
-                        proto.dataReceived(b"\x05\x00")
-                        proto.dataReceived(b"\x05\x00\x00\x01\x00\x00\x00\x00\x00\x00")
-                except Exception:
-                    rec.count("socks_dialogue_exception")
+                play_socks(kind, proto, tr, rec)
         else:
             exc = make_exc(kind, "attempt-%d" % (k + 1))
             given.append((att, kind, exc))
@@ -788,6 +888,7 @@ def run_case_B(case, rec):
     if len(ports) > len(due):
         last = cls_seq[len(due) - 1]
         clause = {"S": "attempt-after-success", "X": "advanced-after-non-connection-error",
+                  "SX": "advanced-after-socks-level-failure",
                   "CE": "attempt-beyond-well-known-ports"}[last]
         V(clause, icls, {"attempts": attempts, "outcomes": seq[:len(attempts)]})
     elif len(ports) < len(due):
@@ -799,6 +900,25 @@ def run_case_B(case, rec):
             rec.count("fallback_success_outcomes")
             if o.fired and not o.ok:
                 rec.count("fallback_success_but_failed_unjudged")
+        elif final_kind in SOCKS_FAILURES:
+            # the TCP connection was made: the outcome is that SOCKS failure, nothing else
+            rec.count("fallback_socks_failures_compared")
+            injected = [g[2] for g in given if g[2] is not None]
+            if not o.fired:
+                V("socks-failure-but-no-outcome", icls, {"attempts": attempts, "outcomes": seq[:len(due)]})
+            elif o.ok:
+                V("socks-failure-but-success-reported", icls, {"value": repr(o.value), "outcomes": seq[:len(due)]})
+            else:
+                from twisted.internet import error as terr
+                code = int(final_kind.rsplit("-", 1)[1]) if final_kind.startswith("socks-reply-") else None
+                got_code = getattr(o.value, "code", None)
+                if any(o.value is e for e in injected) or isinstance(o.value, terr.ConnectError) or \
+                        (code is not None and got_code is not None and got_code != code):
+                    V("socks-failure-not-reported", icls + "/" + ("reply" if code else "drop"),
+                      {"socks_outcome": final_kind, "got": repr(o.value), "got_code": got_code,
+                       "outcomes": seq[:len(attempts)]})
+                elif code is not None and got_code is None:
+                    rec.count("socks_failure_without_code_unjudged")
         else:
             rec.count("fallback_outcomes_compared")
             want = given[len(due) - 1][2]
